@@ -1,8 +1,12 @@
 package c20
 
 // Document generator for C20: Markdown documents built by construction from a block/inline
-// grammar (never by rejection). Every construct that lies in the region of an open known finding
-// is replaced by a harmless neighbour behind allow(id), which also counts the exclusion.
+// grammar. Every construct that lies in the region of an open known finding is replaced by a
+// harmless neighbour behind allow(id), which also counts the exclusion. Markdown lets text leak out
+// of a construct (an indented code line after a list item is a paragraph of that item, a "10)" after
+// a paragraph line is text), so a document can still touch such a region by accident; the check
+// recognises that from the reference parser's AST (analyse / stats.skip) and does not compare those
+// few documents (about 2%, counted in the evidence) instead of reporting the known finding again.
 
 import (
 	"fmt"
@@ -79,7 +83,7 @@ var (
 	punctAfter = []string{".", ",", "!", "?", ":", ";", "'", "\"", ")", ">", "-", "=", "+", "#", "$", "%", "/", "^", "~", "}", "]"}
 	strayDelim = []string{"*", "_", "`", "[", "]", "(", "!", "|", "~", "**", "#", "-", "+", ">", "=", "\"", "'", "{", "}", ":"}
 	// literal < and & that are text, not markup
-	literals = []string{"<", "&", "a<b", "x & y", "<3", "1 < 2 > 0", "&c", "&copy", "&#35", "R&D", "a<q>c", "< b >", "&&", "<<", "&;", "&x y;", "if (a<b && c>d)", "<b", "</ x>", "<1>", "&#;", "&#xZ;"}
+	literals = []string{"<", "&", "a<q", "x & y", "<3", "1 < 2 > 0", "&c", "&copy", "&#35", "R&D", "a<q>c", "< q >", "&&", "<<", "&;", "&x y;", "if (a<q && c>d)", "<q", "</ x>", "<1>", "&#;", "&#xZ;"}
 	entities = []string{"&amp;", "&lt;", "&gt;", "&quot;", "&copy;", "&#35;", "&#x41;", "&#X3c;", "&nbsp;", "&ouml;", "&Dcaron;", "&frac34;", "&HilbertSpace;", "&ClockwiseContourIntegral;", "&#0;", "&#1234;", "&#x1F600;", "&ngE;", "&apos;"}
 	// not entities by CommonMark, and the HTML parser agrees (unknown name with semicolon)
 	nonEntities = []string{"&nosuchname;", "&x;"}
@@ -90,9 +94,9 @@ var (
 	codeAtoms  = []string{"x", "a  b", "<q>", "&amp;", "&", "{{ x }}", "{{ content }}", "*a*", "\\*", "\\", "[l](u)", "a|b", "<!-- c -->", "'q'", "\"", "fn(a, b)", "é", "$1", "#", "-", "1.", ">", "</code>", "</pre>", "{{ code }}", "~~~", "}}"}
 	dests      = []string{"/p", "http://x.y/a?b=1&c=2", "<x y>", "/u(v)", "#frag", "/ä", "/a%20b", "/q?x={{x}}", "", "<>", "/a_b*c", "mailto:a@b.c", "//h/p", "/a\"b", "/a'b", "/%zz", "/a+b", "/#{{href}}", "javascript:alert(1)", "/a~b|c"}
 	destsEsc   = []string{"/a&amp;b", "/a\\*b", "/a\\)b", "/&copy;", "/a\\\\b", "<x\\>y>"}
-	titlesSafe = []string{"t", "two words", "ti&tle", "a<b", "{{ title }}", "é", "it's", "a > b", "say (x)", "{{ x }}", "x  y", "<q>bold</q>", "&", "a & b < c"}
+	titlesSafe = []string{"t", "two words", "ti&tle", "a<q", "{{ title }}", "é", "it's", "a > b", "say (x)", "{{ x }}", "x  y", "<q>bold</q>", "&", "a & q < c"}
 	titlesEsc  = []string{"a &amp; b", "q\\\"q", "&copy; me", "a\\*b", "&#35;1", "\\\\", "&lt;b&gt;"}
-	infoSafe   = []string{"go", "c++", "go linenos", "html", "{{x}}", "a.b", "é", "x-y_z", "C#", "python3 {hl_lines=[1]}", "a<b", "a&b", "\"q\""}
+	infoSafe   = []string{"go", "c++", "go linenos", "html", "{{x}}", "a.b", "é", "x-y_z", "C#", "python3 {hl_lines=[1]}", "a<q", "a&b", "\"q\""}
 	infoEsc    = []string{"a\\*b", "a&amp;b", "&copy;", "a\\_b"}
 	urlsAngle  = []string{"http://a.b/c?d=e&f", "https://example.com/", "mailto:x@y.z", "ftp://h/p_q", "http://a.b/{{x}}", "http://a.b/a*b*", "irc://h/c#d", "http://é.fr/ä", "http://a.b/<", "http://a.b/a\\b"}
 	emails     = []string{"a@b.co", "foo.bar+x@example.com", "A_b@x-y.org"}
@@ -425,7 +429,7 @@ func (g *gen) item(depth int, oneLine bool) string {
 		case 1:
 			alt = g.word() + " *" + g.word() + "*"
 		case 2:
-			alt = "a<b & c"
+			alt = "a<q & c"
 		case 3:
 			if g.allow(fEscapes) {
 				alt = "x &copy; \\*y"
@@ -682,9 +686,6 @@ func (g *gen) list(depth int, ordered bool) []string {
 		pad := strings.Repeat(" ", len(marker)+1)
 		if len(body) == 1 && body[0] == "" {
 			out = append(out, marker)
-		} else if body[0] == "" || strings.HasPrefix(body[0], "    ") {
-			// first block is indented code: needs exactly one space after the marker plus its own indent
-			out = append(out, prefix(body, marker+" ", pad)...)
 		} else {
 			out = append(out, prefix(body, marker+" ", pad)...)
 		}
